@@ -1178,3 +1178,119 @@ func init() {
 	// "stays usable afterwards": a CTE whose evaluation failed is evaluated again by the next execution
 	register("C19", ruleC07CteMemo)
 }
+
+func init() {
+	register("C19", ruleDualWhere)
+	register("C01", ruleDualWhere)
+}
+
+// ruleDualWhere: the FROM-less arm of exec does not skip the WHERE clause.
+func ruleDualWhere(c *Ctx) {
+	c.Doc("exec.dual-where", "(*Query).exec, FROM-less arm (`FROM dual`): the row passes through the WHERE evaluator before it is projected — the arm used to return straight after ExecSelect, so `SELECT 1 AS x FROM dual WHERE RAISE('boom')` (or a type error, or plain `WHERE false`) returned the row and no error: a step that fails must surface as an error, not be skipped")
+	exec := c.P.Method(modPath, "Query", "exec")
+	where := c.P.Func(modPath, "ExecWhere")
+	if exec == nil || where == nil {
+		c.Unknown("exec.dual-where", "(*Query).exec", "-", "anchor lost")
+		return
+	}
+	c.Fn("(*Query).exec")
+	underDual := func(b *ssa.BasicBlock) bool {
+		for _, fc := range factsAt(b) {
+			if ft := NewTB().Of(fc.cond); ft.Op == "field" && ft.Name == "dual" && fc.truth {
+				return true
+			}
+		}
+		return false
+	}
+	arm, filtered := false, false
+	var pos string
+	deepInstrs(exec, func(g *ssa.Function, _ *TB, b *ssa.BasicBlock, in ssa.Instruction) {
+		call, ok := in.(*ssa.Call)
+		if !ok {
+			return
+		}
+		inArm := g == exec && underDual(b)
+		if g != exec {
+			// a helper of the arm: called from a block under the dual fact
+			allInstrs(exec, func(cb *ssa.BasicBlock, cin ssa.Instruction) {
+				if cc, isC := cin.(*ssa.Call); isC && cc.Common().StaticCallee() == g && underDual(cb) {
+					inArm = true
+				}
+			})
+		}
+		if !inArm {
+			return
+		}
+		arm = true
+		if pos == "" {
+			pos = c.P.Pos(call.Pos())
+		}
+		if call.Common().StaticCallee() == where {
+			filtered = true
+		}
+	})
+	if !arm {
+		c.PassTrivial("exec.dual-where", "(*Query).exec/dual-arm", c.P.Pos(exec.Pos()), "exec has no separate FROM-less arm: dual rows go through the ordinary scan")
+		return
+	}
+	c.Check(filtered, "exec.dual-where", "(*Query).exec/dual-arm", pos, "the FROM-less arm calls the WHERE evaluator", "the FROM-less arm of exec projects its row without evaluating WHERE: a failing (or false) predicate of a `FROM dual` query is skipped, the row is returned and no error is reported")
+}
+
+func init() {
+	register("C19", ruleHavingNeedsGroup)
+	register("C03", ruleHavingNeedsGroup)
+}
+
+// ruleHavingNeedsGroup: a HAVING clause is never silently skipped.
+func ruleHavingNeedsGroup(c *Ctx) {
+	c.Doc("build.having-needs-group", "HAVING is evaluated by the grouping stage, once per group; that stage does nothing without GROUP BY. The SELECT builder therefore refuses a HAVING clause when there are no grouping columns (an error path under `Having != nil` and an empty group definition) — otherwise `SELECT SUM(v) AS s FROM t HAVING RAISE('boom')` (or a HAVING that is false) returns its row and no error: the clause is skipped")
+	f := c.theFunc("SELECT builder", "*sqlparser.Select", "BuildSelect")
+	if f == nil {
+		c.Unknown("build.having-needs-group", "BuildSelect", "-", "anchor lost")
+		return
+	}
+	// if the grouping stage itself evaluates HAVING without grouping columns, nothing is skipped
+	if g := c.groupByFunc(); g != nil {
+		evaluatesAlways := true
+		allInstrs(g, func(b *ssa.BasicBlock, in ssa.Instruction) {
+			if r, ok := in.(*ssa.Return); ok && len(r.Results) == 2 {
+				if _, isParam := r.Results[0].(*ssa.Parameter); isParam {
+					evaluatesAlways = false // hands its input back on some path (no grouping columns)
+				}
+			}
+		})
+		if evaluatesAlways {
+			c.PassTrivial("build.having-needs-group", c.P.funcKey(f), c.P.Pos(f.Pos()), "the grouping stage never hands its input back unexamined")
+			return
+		}
+	}
+	paths, err := WalkFunc(f, WalkCfg{MaxVisits: 1, MaxPaths: 6000})
+	if err != nil {
+		c.Unknown("build.having-needs-group", c.P.funcKey(f), c.P.Pos(f.Pos()), err.Error())
+		return
+	}
+	refused := false
+	for _, p := range paths {
+		if p.Exit != "return" || len(p.Ret) != 1 || p.Ret[0].Nil {
+			continue
+		}
+		having, group := false, false
+		for _, k := range p.Order {
+			kt := p.KeyTerm[k]
+			if kt == nil {
+				continue
+			}
+			s := kt.String()
+			if strings.Contains(s, ".Having") {
+				having = true
+			}
+			if strings.Contains(s, "groupDefinition") || strings.Contains(s, ".GroupBy") {
+				group = true
+			}
+		}
+		if having && group {
+			refused = true
+		}
+	}
+	c.Check(refused, "build.having-needs-group", c.P.funcKey(f), c.P.Pos(f.Pos()), "HAVING without grouping columns is an error", "the SELECT builder accepts HAVING without GROUP BY, and the grouping stage (the only place HAVING is evaluated) returns its input untouched when there are no grouping columns: the clause is skipped — a failing or false HAVING changes nothing and reports nothing")
+}
